@@ -470,8 +470,9 @@ def hazards(tree, spec):
 # ----------------------------------------------------------------------------------------------- generator
 
 class Gen(object):
-  def __init__(self, rnd, lazy_p=0.04, discipline=0.85, slices=True):
+  def __init__(self, rnd, lazy_p=0.04, discipline=0.85, slices=True, dict_spread=False):
     self.rnd = rnd
+    self.dict_spread = dict_spread    # opt-in family: dict displays with a ** entry
     self.n = 0
     self.uid = 0
     self.lazy_p = lazy_p
@@ -648,6 +649,13 @@ class Gen(object):
 
   def coll(self, d, vs, eff):
     rnd = self.rnd
+    if self.dict_spread and rnd.random() < 0.5:
+      # {pure: e0, **SPREAD, pure: e1}: all keys are pure leaves, so Python's entry-by-entry order and the
+      # keys-then-values walk of the transformer (recorded D12) agree: e0, SPREAD, e1
+      ops = self.operands(rnd.randint(2, 3), d, vs, eff)
+      ents = ['%s: %s' % (self.pure_leaf(vs), o) for o in ops[1:]]
+      ents.insert(rnd.randint(0, len(ents)), '**%s' % self.as_dict(ops[0]))
+      return '{%s}' % ', '.join(ents)
     r = rnd.random()
     n = rnd.randint(1, 3)
     ops = self.operands(n, d, vs, eff)
@@ -972,6 +980,7 @@ def _protected(st):
 
 def work(item):
   idx, seed, size, include_hazards = item
+  dict_spread, size = size >= 100, size % 100
   rnd = random.Random(seed)
   out = dict(idx=idx, status=None, runs=0, nontrivial=False, excluded=0, failure=None, src=None, spec=None,
              positions=[], rejected_with=None, key=None)
@@ -980,7 +989,7 @@ def work(item):
     names_slices = spec is None or asks(spec, ast.Subscript(), 'slice', ast.Slice())
     src = None
     for attempt in range(25):
-      g = Gen(rnd, lazy_p=0.05 if rnd.random() < 0.5 else 0.0, slices=not names_slices or include_hazards)
+      g = Gen(rnd, lazy_p=0.05 if rnd.random() < 0.5 else 0.0, slices=not names_slices or include_hazards, dict_spread=dict_spread)
       cand = g.program(size)
       hz = hazards(ast.parse(cand).body[0], spec)
       if hz and not include_hazards:
@@ -1105,6 +1114,8 @@ def main():
   a = ap.parse_args()
   n = a.n if a.n is not None else (120000 if a.tier == 'thorough' else 6000)
   items = [(i, a.seed * 1000003 + i, 1 + (i % 4), a.include_hazards) for i in range(n)]
+  # extra block (own seeds, default stream untouched): dict displays with a ** entry among the operand shapes
+  items += [(n + i, a.seed * 1000003 + 700000 + i, 101 + (i % 4), a.include_hazards) for i in range(n // 8)]
   evaluated = programs = accepted = rejected = excluded = noprog = 0
   rej_kinds = {}
   seen = set()
